@@ -25,6 +25,22 @@ inside every grid point:
   the analytic line-shape function (mc/refmodels/lineshape_ob.py), tolerance = derived
   first-order bound, and the error must drop by >= 1.7x when dt is halved.
 
+Histories of the initial-state object (every section that propagates).  "The same initial state
+propagated by two routes" is only a statement about the routes if a route does not alter its
+input, therefore
+  (i)  after EVERY propagate() call of the driver the caller's initial-state object is read
+       again in the same context: dtype, shape and all bits must be those it had before the call;
+  (ii) one initial-state OBJECT is handed to several propagations: all sequences of length
+       `hist` (2 quick, 3 thorough; repetitions included, so every ordered pair "route A, then
+       route B" and "route A twice") over the routes {operator form, four-index form, converted
+       form} x 3 bases, one fresh object per sequence, for a general initial state (full rank,
+       every element non-zero and complex) and, with sequences one call shorter, for its real
+       part stored as a float64 array (storage type of the caller's object).  Every call of every sequence must reproduce the
+       result the same route gives for a fresh object (read after the context is left), and
+       that result must be the linear combination of the spanning-set results (linearity
+       closure, ties it to the absolute oracles).  Dephasing section: the one route of the case
+       is run twice on one object.
+
 Tolerances: R = 1e-10 * scale for every identity between representations; (d) computed bound
 exp(D+E)-1 (D = dt * int|C|, E = accumulated Taylor remainder), see lineshape_ob.
 """
@@ -121,6 +137,76 @@ def _unit(N, i, j):
 
 def _arr(x):
     return numpy.array(x, dtype=numpy.complex128, copy=True)
+
+
+ROUTES = ("op", "tensor", "conv")
+
+
+def _general_state(N):
+    """Hermitian, unit trace, full rank, every element non-zero (complex off the diagonal)."""
+    v = numpy.array([(1.0 + 0.35 * k) * numpy.exp(1j * (0.7 * k * k + 0.3 * k))
+                     for k in range(N)], dtype=numpy.complex128)
+    pure = numpy.outer(v, v.conj())
+    pure = pure / numpy.trace(pure).real
+    mix = numpy.diag(numpy.arange(1, N + 1, dtype=float)).astype(numpy.complex128)
+    mix = mix / numpy.trace(mix).real
+    return 0.8 * pure + 0.2 * mix
+
+
+def _expansion(states, g):
+    """coefficients c with sum_k c_k s_k = g for the spanning set `states`"""
+    A = numpy.array([s.reshape(-1) for _, s in states]).T
+    c = numpy.linalg.solve(A, g.reshape(-1))
+    if numpy.max(numpy.abs(A @ c - g.reshape(-1))) > 1.0e-12:
+        raise isolation.HarnessError("general state not expanded in the spanning set")
+    return {tag: c[i] for i, (tag, _) in enumerate(states)}
+
+
+def _sequences(depth):
+    """all sequences of exactly `depth` routes (repetitions included), simplest first"""
+    out = [()]
+    for _ in range(depth):
+        out = [s + (k,) for s in out for k in ROUTES]
+    return out
+
+
+def _propagate(acc, kind, B, k, P, rho, kwargs, nref, cut, sfx="", tag="general"):
+    """ONE propagate() call in the current context.  Returns the evolution (None if the call
+    raised IndexError, reported).  Input non-interference: the caller's initial-state object
+    must be bit-identical after the call (read in the same context before and after)."""
+    if nref > 1:
+        P.setDtRefinement(nref)
+    before = numpy.array(rho.data, copy=True)
+    try:
+        ev = P.propagate(rho, **kwargs)
+    except IndexError as e:
+        acc.add("b/propagate/%s/%s/%s-form-raises-IndexError" % (kind, cut, k),
+                "propagate() with the %s form raised IndexError: %s (basis %s)"
+                % (k, str(e)[:120], B))
+        return None
+    except TypeError as e:
+        # e.g. numpy's casting error of an in-place operation on the caller's array; kept as
+        # a violation of its own so that the other findings of the grid point are not lost
+        acc.add("b/propagate/%s/%s/%s-form-raises-%s%s" % (kind, B, k, type(e).__name__, sfx),
+                "propagate() with the %s form raised %s: %s (basis %s, initial state stored "
+                "as %s)" % (k, type(e).__name__, str(e)[:160], B, before.dtype))
+        return None
+    _unchanged(acc, "b/propagate/%s/%s/%s-form-alters-initial-state%s" % (kind, B, k, sfx),
+               before, rho, "%s form, basis %s, initial state %s" % (k, B, tag))
+    return ev
+
+
+def _unchanged(acc, key, before, rho, where):
+    acc.n += 1
+    after = numpy.asarray(rho.data)
+    if after.dtype != before.dtype or after.shape != before.shape:
+        acc.add(key, "propagate() changed the caller's initial-state object (%s): dtype/shape "
+                "%s%s -> %s%s" % (where, before.dtype, before.shape, after.dtype, after.shape))
+    elif not numpy.array_equal(after, before):
+        with numpy.errstate(all="ignore"):
+            err = float(numpy.nanmax(numpy.abs(after - before)))
+        acc.add(key, "propagate() changed the caller's initial-state object (%s): max |change "
+                "of rho0.data| = %.3g (must be bit-identical)" % (where, err), {"err": err})
 
 
 # ---------------------------------------------------------------------------
@@ -352,7 +438,9 @@ def _check_forms(acc, kind, mk_op, mk_tensor, ham, Xop, N, ref_from_op, prop):
 
 def _check_propagation(acc, kind, forms, conv, ham, Xop, N, prop, Tref, td=False):
     """forms: {"op": T, "tensor": T}; conv: {basis: converted tensor} (used in its own basis).
-    Every propagation of the spanning set is done with all forms in all bases."""
+    Every propagation of the spanning set is done with all forms in all bases (one fresh
+    initial-state object per call, which must come back bit-identical); then all sequences of
+    prop["hist"] routes on ONE object holding the general state, in every basis."""
     from quantarhei.qm import ReducedDensityMatrixPropagator, ReducedDensityMatrix
     ta = prop["ta"]
     states = RA.spanning_states(N)
@@ -369,23 +457,23 @@ def _check_propagation(acc, kind, forms, conv, ham, Xop, N, prop, Tref, td=False
         for tag, s in states:
             ref[tag] = RA.taylor_propagate(prop["H"], Tref, s, ta.step, ta.length,
                                            L=prop.get("L", 4), nref=nref)
+    cut = "cutoff" if prop.get("cutoff") else "nocut"
+    hist = int(prop.get("hist", 2))
+    # initial states of the shared-object histories: (storage label, matrix, sequence length)
+    gen = _general_state(N)
+    gens = [("complex", gen, hist),
+            ("real-dtype", numpy.array(gen.real, dtype=numpy.float64), max(1, hist - 1))]
     for B in BASES:
+        routes = {"op": props["op"], "tensor": props["tensor"], "conv": cprops[B]}
         keep = []
         for tag, s in states:
-            rho = {k: ReducedDensityMatrix(data=s.copy()) for k in ("op", "tensor", "conv")}
+            rho = {k: ReducedDensityMatrix(data=s.copy()) for k in ROUTES}
             got, objs = {}, {}
             with _basis(B, ham, Xop):
-                for k, P in (("op", props["op"]), ("tensor", props["tensor"]),
-                             ("conv", cprops[B])):
-                    if nref > 1:
-                        P.setDtRefinement(nref)
-                    try:
-                        ev = P.propagate(rho[k], **kwargs)
-                    except IndexError as e:
-                        cut = "cutoff" if prop.get("cutoff") else "nocut"
-                        acc.add("b/propagate/%s/%s/%s-form-raises-IndexError" % (kind, cut, k),
-                                "propagate() with the %s form raised IndexError: %s (basis %s)"
-                                % (k, str(e)[:120], B))
+                for k in ROUTES:
+                    ev = _propagate(acc, kind, B, k, routes[k], rho[k], kwargs, nref, cut,
+                                    tag=tag)
+                    if ev is None:
                         continue
                     got[k] = _arr(ev.data)
                     objs[k] = ev
@@ -414,6 +502,58 @@ def _check_propagation(acc, kind, forms, conv, ham, Xop, N, prop, Tref, td=False
                 acc.same("b/absolute/%s/%s/%s" % (kind, k, B), "b.absolute", _arr(ev.data),
                          ref[tag], "state %s propagated with the %s form in basis %s vs Taylor "
                          "polynomial of the reference Liouvillian" % (tag, k, B), scale=sc)
+        # ---- one initial-state OBJECT handed to several propagations -------------------
+        # expected result of route k for the general state: linear combination of the
+        # spanning-set results of that route (all read after the context is left: gauge free)
+        spanres = {k: {tag: _arr(objs[k].data) for tag, objs in keep}
+                   for k in ROUTES if all(k in objs for _, objs in keep)}
+        for label, g0, depth in gens:
+            sfx = "" if label == "complex" else "/" + label
+            coef = _expansion(states, g0.astype(numpy.complex128))
+            csum = max(1.0, float(sum(abs(c) for c in coef.values())))
+            lin = {k: sum(coef[tag] * r for tag, r in d.items()) for k, d in spanres.items()}
+            runs = []
+            for seq in _sequences(depth):
+                rho0 = ReducedDensityMatrix(data=g0.copy())
+                evs = []
+                with _basis(B, ham, Xop):
+                    for k in seq:
+                        evs.append(_propagate(acc, kind, B, k, routes[k], rho0, kwargs, nref,
+                                              cut, sfx))
+                runs.append((seq, [None if ev is None else _arr(ev.data) for ev in evs]))
+            # reference of a route: its first call on a fresh object (first sequence starting
+            # with it)
+            fresh = {}
+            for seq, res in runs:
+                if seq[0] not in fresh and res[0] is not None:
+                    fresh[seq[0]] = res[0]
+            for k, r in fresh.items():
+                if k in lin:
+                    acc.same("b/linearity/%s/%s/%s%s" % (kind, k, B, sfx), "b.linearity", r,
+                             lin[k], "general state (%s storage) propagated with the %s form in "
+                             "basis %s vs the linear combination of the spanning-set results"
+                             % (label, k, B),
+                             scale=max(1.0, float(numpy.max(numpy.abs(r)))) * csum)
+            for seq, res in runs:
+                for i, (k, r) in enumerate(zip(seq, res)):
+                    if r is None:
+                        break
+                    if k not in fresh or r is fresh[k]:
+                        continue
+                    sc = max(1.0, float(numpy.max(numpy.abs(fresh[k]))))
+                    if i == 0:
+                        # another fresh object, later in the life of the same propagator
+                        acc.same("b/fresh-object-again/%s/%s/%s%s" % (kind, B, k, sfx),
+                                 "b.shared", r, fresh[k], "the %s form (basis %s) gives two "
+                                 "different results for two fresh objects holding the same "
+                                 "initial state (%s storage)" % (k, B, label), scale=sc)
+                        continue
+                    acc.same("b/shared-initial-state/%s/%s/%s%s"
+                             % (kind, B, "-then-".join(seq[:i + 1]), sfx), "b.shared", r,
+                             fresh[k], "call %d of the sequence %s on ONE initial-state object "
+                             "(%s storage, basis %s): the %s form does not reproduce its result "
+                             "for a fresh object" % (i + 1, "->".join(seq), label, B, k),
+                             scale=sc)
 
 
 # ---------------------------------------------------------------------------
@@ -439,7 +579,7 @@ def eval_redfield(case):
     S = _System(case)
     prop = {"ta": S.ta, "H": S.hmatrix(), "L": {"short-exp": 4, "short-exp-2": 2,
                                                "short-exp-6": 6}[case["method"]],
-            "method": case["method"], "nref": case["nref"]}
+            "method": case["method"], "nref": case["nref"], "hist": case.get("hist", 2)}
     Tref = _check_forms(acc, "redfield", lambda: S.tensor(False, True),
                         lambda: S.tensor(False, False), S.ham, S.Xop, S.N, _ref_redfield, prop)
     # non-secular content: the tensor couples populations and coherences
@@ -487,7 +627,7 @@ def eval_lindblad(case):
 
     ta = systems.time_axis(case["nt"], case["dt"])
     H = numpy.array(ham.data, dtype=float, copy=True)
-    prop = {"ta": ta, "H": H, "L": 4, "method": None, "nref": 1}
+    prop = {"ta": ta, "H": H, "L": 4, "method": None, "nref": 1, "hist": case.get("hist", 2)}
     Tref = RA.gksl_tensor(Ks, rates, N)
     _check_forms(acc, "lindblad", lambda: LindbladForm(ham, sbi(), as_operators=True),
                  lambda: LindbladForm(ham, sbi(), as_operators=False), ham, Xop, N,
@@ -566,7 +706,8 @@ def eval_td(case):
                      "in %s" % (B1, B), scale=tscale)
 
     # ---- (b) propagation -----------------------------------------------------------
-    prop = {"ta": S.ta, "H": None, "L": 4, "method": None, "nref": 1, "cutoff": cutoff}
+    prop = {"ta": S.ta, "H": None, "L": 4, "method": None, "nref": 1, "cutoff": cutoff,
+            "hist": case.get("hist", 2)}
     _check_propagation(acc, "td", {"op": TDo, "tensor": TDt}, conv, ham, Xop, N, prop, None,
                        td=True)
     return {"nontrivial": _nontrivial_system(case),
@@ -592,9 +733,11 @@ def _deph_M(case):
     return 10 if case["matsubara"] is None else int(case["matsubara"])
 
 
-def _deph_run(case, nt, dt):
+def _deph_run(case, nt, dt, acc, again=False):
     """Propagate the uniform superposition with the TD Redfield tensor; return per coherence
-    (label, numerical, exact, bound) and the population deviation."""
+    (label, numerical, exact, bound) and the population deviation.  The initial-state object
+    must come back bit-identical; again=True: it is propagated a second time and must give the
+    same dynamics."""
     from quantarhei.qm import ReducedDensityMatrixPropagator, ReducedDensityMatrix
     w = [float(x) for x in case["w"]]
     n = len(w)
@@ -609,7 +752,17 @@ def _deph_run(case, nt, dt):
     N = S.N
     rho = ReducedDensityMatrix(data=numpy.full((N, N), 1.0 / N, dtype=numpy.complex128))
     P = ReducedDensityMatrixPropagator(S.ta, S.ham, TD)
+    before = numpy.array(rho.data, copy=True)
     ev = _arr(P.propagate(rho).data)
+    _unchanged(acc, "d/%s/alters-initial-state" % case["form"], before, rho,
+               "TD tensor as %s, %d steps of %g fs" % (case["form"], nt, dt))
+    if again:
+        ev2 = _arr(P.propagate(rho).data)
+        acc.same("d/%s/shared-initial-state/second-propagation" % case["form"], "d.shared",
+                 ev2, ev, "second propagate() of the SAME initial-state object (TD tensor as "
+                 "%s) vs the first" % case["form"], scale=1.0)
+        _unchanged(acc, "d/%s/alters-initial-state" % case["form"], before, rho,
+                   "TD tensor as %s, second call" % case["form"])
     t = numpy.array(S.ta.data, dtype=float)
     M = _deph_M(case)
     bt = [(lam, tau, float(case["T"]), M) for (lam, tau) in _deph_baths(case)]
@@ -637,8 +790,8 @@ def eval_dephasing(case):
     acc = _Acc()
     form = case["form"]
     nt, dt = case["nt"], case["dt"]
-    coarse, pdev1, N = _deph_run(case, nt, dt)
-    fine, pdev2, _ = _deph_run(case, 2 * nt - 1, dt / 2.0)
+    coarse, pdev1, N = _deph_run(case, nt, dt, acc, again=True)
+    fine, pdev2, _ = _deph_run(case, 2 * nt - 1, dt / 2.0, acc)
     digest = []
     for (lab, num, ex, bnd, expo), (lab2, num2, ex2, bnd2, expo2) in zip(coarse, fine):
         kind = "optical" if "ground" in lab else "intersite"
@@ -712,7 +865,7 @@ def redfield_cases(tier):
                "epat": ["distinct", "degenerate", "near"], "Jpat": ["none", "chain", "full"],
                "ftype": ["OverdampedBrownian", "OverdampedBrownian-HighTemperature"],
                "lam_tau": [[20.0, 50.0]], "T": [300.0, 77.0],
-               "method": ["short-exp"], "nref": [1], "nt": [40], "dt": [1.0]}
+               "method": ["short-exp"], "nref": [1], "nt": [40], "dt": [1.0], "hist": [2]}
     else:
         dom = {"sec": ["redfield"], "route": ["protocol", "direct", "aggregate"],
                "n": [1, 2, 3, 4],
@@ -720,7 +873,7 @@ def redfield_cases(tier):
                "ftype": ["OverdampedBrownian", "OverdampedBrownian-HighTemperature"],
                "lam_tau": [[20.0, 50.0], [60.0, 100.0]], "T": [300.0, 77.0],
                "method": ["short-exp", "short-exp-2", "short-exp-6"], "nref": [1, 2],
-               "nt": [60], "dt": [1.0]}
+               "nt": [60], "dt": [1.0], "hist": [3]}
 
     def ok(c):
         if not _sys_ok(c):
@@ -756,7 +909,8 @@ def lindblad_cases(tier):
         for hpat in ("diagonal", "coupled"):
             for ops in sets:
                 out.append({"sec": "lindblad", "N": N, "hpat": hpat,
-                            "ops": [list(o) for o in ops], "nt": 30, "dt": 2.0})
+                            "ops": [list(o) for o in ops], "nt": 30, "dt": 2.0,
+                            "hist": 2 if tier == "quick" else 3})
     out.sort(key=lambda c: (c["N"], len(c["ops"]), c["hpat"] != "diagonal"))
     return out
 
@@ -766,13 +920,13 @@ def td_cases(tier):
         dom = {"sec": ["td"], "route": ["protocol", "aggregate"], "n": [1, 2],
                "epat": ["distinct", "degenerate"], "Jpat": ["none", "chain", "full"],
                "ftype": ["OverdampedBrownian"], "lam_tau": [[20.0, 50.0]], "T": [300.0, 77.0],
-               "cutoff": [None, 0.5], "nt": [40], "dt": [1.0]}
+               "cutoff": [None, 0.5], "nt": [40], "dt": [1.0], "hist": [2]}
     else:
         dom = {"sec": ["td"], "route": ["protocol", "direct", "aggregate"], "n": [1, 2, 3],
                "epat": ["distinct", "degenerate", "near"], "Jpat": ["none", "chain", "full"],
                "ftype": ["OverdampedBrownian", "OverdampedBrownian-HighTemperature"],
                "lam_tau": [[20.0, 50.0], [60.0, 100.0]], "T": [300.0, 77.0],
-               "cutoff": [None, 0.5], "nt": [60], "dt": [1.0]}
+               "cutoff": [None, 0.5], "nt": [60], "dt": [1.0], "hist": [3]}
 
     def ok(c):
         if not _sys_ok(c):
@@ -790,7 +944,7 @@ def td_cases(tier):
              "n": [2, 3], "epat": ["unsorted"], "Jpat": ["none", "chain"],
              "ftype": ["OverdampedBrownian"], "lam_tau": [[20.0, 50.0]], "T": [300.0],
              "cutoff": [None], "nt": [40 if tier == "quick" else 60], "dt": [1.0],
-             "bathpat": ["sitewise"]}
+             "bathpat": ["sitewise"], "hist": [2 if tier == "quick" else 3]}
     out += product(extra, _sys_ok)
     return out
 
@@ -848,7 +1002,11 @@ def run(run):
                 "tau_c) x T [x expansion order x refinement | x cut-off]), dephasing (form x "
                 "site energies x bath x T x Matsubara terms x admissible axis); inside a point: "
                 "all N^2 matrix units and a spanning set of N^2 initial states, 3 bases, before "
-                "and after conversion done in each of the 3 bases.  Non-trivial: redfield/td = "
+                "and after conversion done in each of the 3 bases; x all sequences of `hist` "
+                "(2 quick / 3 thorough) propagation routes {operator, four-index, converted form} "
+                "run on ONE initial-state object (general state) in each basis; after every "
+                "propagate() the caller's initial state must be bit-identical.  Non-trivial: "
+                "redfield/td = "
                 "resonance coupling != 0 (eigenbasis differs from the site basis); lindblad = "
                 "coupled Hamiltonian and at least one projector with i != j; dephasing = "
                 "lambda > 0")
@@ -867,14 +1025,20 @@ def run(run):
         "analytic line-shape function with the same number of Matsubara terms as the bath "
         "built by the package (mc/refmodels/lineshape_ob.py); admissible axes: dt <= tau_c/25 "
         "and nu_M dt <= 2 pi (all Matsubara terms representable on the grid)",
-        "X = fixed real symmetric matrix with simple spectrum (relax_action.probe_operator)"]
+        "X = fixed real symmetric matrix with simple spectrum (relax_action.probe_operator)",
+        "shared-initial-state histories use one general initial state (full rank, all elements "
+        "non-zero, complex128) and its real part stored as float64 (sequences of hist - 1 "
+        "calls); the fresh-object result is tied to the spanning set by "
+        "linearity; input non-interference (bit-identity of rho0.data read in the same context "
+        "before and after the call) is checked for every state of the spanning set"]
     secs = (("lindblad", lindblad_cases(run.tier)), ("redfield", redfield_cases(run.tier)),
             ("td", td_cases(run.tier)), ("dephasing", dephasing_cases(run.tier)))
     run.bounds = {"tolerances": {"R": RTOL, "d": "exp(D+E)-1, D = dt*int|C|, E = Taylor "
                                  "remainder; + unit allowance %g" % LS.UNIT_RTOL,
                                  "halving_ratio_min": HALVING},
                   "cases": {k: len(v) for k, v in secs},
-                  "bases": list(BASES)}
+                  "bases": list(BASES),
+                  "shared_initial_state_sequences": {"quick": 9, "thorough": 27}[run.tier]}
     worst = {}
     for sect, cs in secs:
         infos = run_grid(run, rotate(cs, run.seed), eval_case, section=sect)
